@@ -9,12 +9,24 @@ type propSpec struct {
 	runLimit       time.Duration
 	requiredProbes []string
 	assumptions    []string
+	scenarios      []string // worker scenarios that feed this property's checker (default: the property id)
+}
+
+func propOfScenario(sc string) string {
+	for p, sp := range props {
+		for _, x := range sp.scenarios {
+			if x == sc {
+				return p
+			}
+		}
+	}
+	return sc
 }
 
 var props = map[string]propSpec{
 	"C03": {level: "exploration", quickRuns: 2500, thoroughRuns: 60000, runLimit: 30 * time.Second,
 		requiredProbes: []string{"kind:mut", "kind:del", "kind:exp", "filter:reserved-prefix", "filter:skipuntil", "partial-prefix-delivered", "ack-in-a-later-step-than-delivery"}},
-	"C04": {level: "exploration", quickRuns: 2500, thoroughRuns: 60000, runLimit: 30 * time.Second,
+	"C04": {scenarios: []string{"C04", "C04", "C04r"}, level: "exploration", quickRuns: 2500, thoroughRuns: 60000, runLimit: 30 * time.Second,
 		requiredProbes: []string{"stale-ack", "repeated-ack", "ack-burst", "absorbed-event-tracked", "offsets-api-compared", "seq-gauge-compared"}},
 	"C05": {level: "exploration", quickRuns: 2500, thoroughRuns: 60000, runLimit: 30 * time.Second,
 		requiredProbes: []string{"ack-during-store-call", "explicit-save", "clean-save-episode", "failed-save-episode", "advanced-by-non-document-event"}},
@@ -22,8 +34,10 @@ var props = map[string]propSpec{
 		requiredProbes: []string{"checkpoint-write-judged", "crash-with-unacked-delivery", "restart-after-crash-with-unacked-event", "absorbed-event-while-earlier-delivery-unacked"}},
 	"C06": {level: "exploration", quickRuns: 2500, thoroughRuns: 60000, runLimit: 30 * time.Second,
 		requiredProbes: []string{"multi-item-snapshot-offset", "ack-of-event-from-older-snapshot", "seqno-advanced-closing-snapshot", "stored-offset-judged", "out-of-snapshot-item-emitted"}},
-	"C13": {level: "exploration", quickRuns: 2500, thoroughRuns: 60000, runLimit: 30 * time.Second,
+	"C13": {scenarios: []string{"C13", "C13r"}, level: "exploration", quickRuns: 2500, thoroughRuns: 60000, runLimit: 30 * time.Second,
 		requiredProbes: []string{"close:idle", "close:during-delivery", "close:save-in-flight", "shutdown-completed"}},
-	"C16": {level: "exploration", quickRuns: 2500, thoroughRuns: 60000, runLimit: 30 * time.Second,
+	"C16": {scenarios: []string{"C16", "C16", "C16r"}, level: "exploration", quickRuns: 2500, thoroughRuns: 60000, runLimit: 30 * time.Second,
 		requiredProbes: []string{"scrape-judged", "counter-judged", "scrape-while-closed-or-closing"}},
+	"C11": {level: "exploration", quickRuns: 2500, thoroughRuns: 50000, runLimit: 30 * time.Second,
+		requiredProbes: []string{"reopen-judged", "notification-during-close", "notification-during-delay", "notification-while-reopening", "burst-of-several-notifications", "notification:api-rebalance"}},
 }
